@@ -72,7 +72,7 @@ WEIGHTS = {
                    addfilter=14, removefilter=8, emptyq=1),
     "qcopy": dict(listen=12, listenfront=3, listenbefore=4, unlisten=6, hasany=2, dispatch=8, enqueue=20, process=8,
                   processone=5, processif=3, peek=2, take=3, clear=1, emptyq=8, addfilter=3, removefilter=1, qcopy=7, qmove=4,
-                  qassign=4, qmoveassign=3, qselfassign=4, dqnb=5, dqne=3),
+                  qassign=4, qmoveassign=3, qselfassign=4, dqnb=5, dqne=3, dqnc=3, dqna=3),
     "ordered": dict(listen=8, unlisten=2, enqueue=34, process=8, processone=8, processif=10, processuntil=8, peek=4, take=5,
                     clear=1, emptyq=2, dispatch=2),
 }
@@ -88,6 +88,8 @@ def _cmd(rng, profile, nk, issued, cbs, preds, filters, inside=False, allow_proc
         w.pop("qselfassign", None)
         w.pop("dqnb", None)
         w.pop("dqne", None)
+        w.pop("dqnc", None)
+        w.pop("dqna", None)
         # inside listeners / predicates / filters: mutate near the running entry, enqueue, observe
         # re-entrant dispatch / processing only where the caller guarantees termination
         # (listeners that add listeners every time they run make the lists grow exponentially)
